@@ -31,6 +31,10 @@ func (h *RequestBufferMiddleware) ServeHTTP(w http.ResponseWriter, r *http.Reque
 		return
 	}
 
+	// The buffer (and its spill file) is ours to clean up: nothing downstream is
+	// guaranteed to close the body we substitute here.
+	defer requestBuffer.Close()
+
 	r.Body = requestBuffer
 	h.next.ServeHTTP(w, r)
 }
